@@ -807,8 +807,6 @@ def classify(ctx, spec, res, what):
     eng = spec['engine']
     if same_named_types(spec, same_kind=True) and (eng == 'v1' or spec['meta'].get('auto_tags')):
         return 'F9-same-name-types'
-    if eng == 'env' and env_unsafe_alias(spec):
-        return 'F21-env-var-name-splice'
     if eng == 'env' and env_reserved_fields(spec):
         return 'C15a-env-field-shadows-generator-name'
     if eng == 'v1':
